@@ -258,7 +258,8 @@ func unmarshal(bytes []byte, s reflect.Value) error {
 			t := s.Type().Field(i)
 			tag := t.Tag.Get("uhppote")
 
-			if !f.CanSet() {
+			// NTS: the embedded struct itself is not settable if its type is unexported but its exported fields are
+			if !f.CanSet() && !(t.Anonymous && f.Kind() == reflect.Struct) {
 				continue
 			}
 
